@@ -126,7 +126,7 @@ def all_dags_rules(rep, prog):
     triv = [r for r in rets if r not in filt]
     ok = len(triv) == 1 and triv[0].value in (("ext", "numpy.array", (("list", (("method", pd, "copy", (), ()),)),), ()),
                                                ("ext", "numpy.array", (("list", (pd,)),), ())) and \
-        any(pol is True and npred(c, True)[0] in ("empty", "==0") for c, pol in triv[0].path)
+        any(npred(c, pol)[0] in ("empty", "==0") for c, pol in triv[0].path)
     rep.check("FILTER.trivial", ok, fwhere(f, triv[0].node if triv else None), "without undirected edges the PDAG itself is the single candidate",
               "the no-undirected-edge case does not return [pdag.copy()]")
 
